@@ -21,6 +21,10 @@ CFGS = {
               ("c04-s", dict(LeafCap=4, IntCap=5, FlushSteps="TRUE", CrashAt=FL, NoCrashIn='{"create"}', MaxStmts=6, MaxRows=3, MaxFlush=2, MaxCrash=1, Tables='{"t1"}',
                              Vals="{1, 2}", Wheres="{0}", Ops='{"create", "insert", "update"}', Script="<- ScriptInsUpdSplit", ScriptRows="<- RowsInsUpdSplit",
                              ScriptSeqs="<- SeqsInsUpdSplit"), None),
+              # a table whose root split is in the log (a record that names the catalog leaf), then the flush of a second
+              # CREATE TABLE torn in every way
+              ("c04-t", dict(LeafCap=4, IntCap=5, FlushSteps="TRUE", CrashAt=FL, MaxStmts=5, MaxRows=3, MaxFlush=1, MaxCrash=1, Tables='{"t1", "t2"}', DmlTables='{"t1"}',
+                             Vals="{1}", Ops='{"create", "insert"}', Script="<- ScriptSplitThenCreate", ScriptRows="<- RowsSplitThenCreate"), None),
               # a torn flush of existing pages, recovery, more statements, a clean restart
               ("c04-e", dict(FlushSteps="TRUE", CrashAt='{"flush", "idle"}', NoCrashIn='{"create"}', MaxStmts=5, MaxRows=1, MaxFlush=2, MaxCrash=2, Tables='{"t1"}', Vals="{1}", Ops='{"create", "insert", "update"}'), 15000)],
     "thorough": [("c04-u", dict(FlushSteps="TRUE", CrashAt=FL, NoCrashIn='{"create"}', MaxStmts=6, MaxRows=3, MaxFlush=2, MaxCrash=1, Tables='{"t1"}', Vals="{1}",
@@ -28,6 +32,8 @@ CFGS = {
                  ("c04-s", dict(LeafCap=4, IntCap=5, FlushSteps="TRUE", CrashAt=FL, NoCrashIn='{"create"}', MaxStmts=6, MaxRows=3, MaxFlush=2, MaxCrash=1, Tables='{"t1"}',
                              Vals="{1, 2}", Wheres="{0}", Ops='{"create", "insert", "update"}', Script="<- ScriptInsUpdSplit", ScriptRows="<- RowsInsUpdSplit",
                              ScriptSeqs="<- SeqsInsUpdSplit"), None),
+                 ("c04-t", dict(LeafCap=4, IntCap=5, FlushSteps="TRUE", CrashAt=FL, MaxStmts=5, MaxRows=3, MaxFlush=1, MaxCrash=1, Tables='{"t1", "t2"}', DmlTables='{"t1"}',
+                             Vals="{1}", Ops='{"create", "insert"}', Script="<- ScriptSplitThenCreate", ScriptRows="<- RowsSplitThenCreate"), None),
                  ("c04-a", dict(EmitMod=12, FlushSteps="TRUE", CrashAt=FL, MaxStmts=3, MaxRows=3, MaxFlush=1, MaxCrash=1, Tables='{"t1"}'), 60000),
                  ("c04-b", dict(FlushSteps="TRUE", CrashAt=FL, MaxStmts=4, MaxRows=2, MaxFlush=2, MaxCrash=2, Tables='{"t1"}', Vals="{1}"), 40000),
                  ("c04-c", dict(EmitMod=3, FlushSteps="TRUE", CrashAt=FL, MaxStmts=3, MaxRows=2, MaxFlush=1, MaxCrash=1), 60000),
